@@ -19,7 +19,7 @@ DEFAULT = dict(
     strings=1.0, lists=0.0, random=0.0, shuffles=0.0, externals=0.0, faults=0.0, flows=0,
     fallback=0.6, labels=0.6, readcounts=1.0, stitches=0.5, impure_functions=0.3,
     assign_after_newline=1.0, unicode=0.0, floats=0.0, hostvar=0, turns=1.0, msgs=0.0, ext_in_strings=0.0,
-    ext_counters=0,
+    ext_counters=0, retype=0.4,
 )
 
 
@@ -259,6 +259,22 @@ class Gen:
                 for _ in range(r.randint(2, 3)):
                     out.append(pad + "  - " + self.text_line(temps, allow_glue=False))
                 out.append(pad + "}")
+            elif c < 0.86 and self.w["retype"] and r.random() < self.w["retype"] and not in_function:
+                # a value of another type that is numerically equal: int <-> float <-> bool
+                k = r.random()
+                if k < 0.4 and self.ints:
+                    v = r.choice(self.ints)
+                    out.append(pad + "~ %s = FLOAT(%s)" % (v, v))
+                elif k < 0.6 and self.ints:
+                    v = r.choice(self.ints)
+                    out.append(pad + "~ %s = (%s == 1)" % (v, v))
+                elif k < 0.8 and self.bools:
+                    v = r.choice(self.bools)
+                    out.append(pad + "~ %s = INT(%s)" % (v, v))
+                elif self.ints:
+                    v = r.choice(self.ints)
+                    out.append(pad + "~ %s = INT(%s)" % (v, v))
+                out.append(pad + self.text_line(temps))
             else:
                 out.append(pad + self.text_line(temps))
         return out, temps
@@ -371,7 +387,7 @@ class Gen:
         names = ["k%d" % i for i in range(nk)]
         nfun = r.randint(1, 2) if w["functions"] else 0
         ntun = r.randint(1, 2) if w["tunnels"] else 0
-        nthr = 1 if w["threads"] and r.random() < 0.7 else 0
+        nthr = (1 if r.random() < 0.6 else 2) if w["threads"] and r.random() < 0.7 * w["threads"] + 0.3 else 0
         # functions first (so that expressions can call them); only earlier functions are called
         fun_src = []
         for i in range(nfun):
@@ -404,8 +420,22 @@ class Gen:
             back = names[: ki + 1]
             body, temps = self.stmts(0, w["depth"], temps, knot_index=ki)
             L += body
-            if self.threads and self.p("threads") and r.random() < 0.5:
+            if (self.threads or self.tunnels) and r.random() < 0.35 * w["choices"]:
+                # a choice inside a conditional block: the flow goes on after generating it, so the choice stays
+                # pending while threads and tunnels below produce further lines
+                L.append("{ %s:" % r.choice(["true", "%s >= 0" % self.ints[0] if self.ints else "true"]))
+                L.append("  * [%s]" % self.word())
+                L.append("    " + self.text_line(temps, allow_glue=False))
+                L.append("    -> %s" % (r.choice(targets) if targets else "END"))
+                L.append("}")
+                if self.tunnels and r.random() < 0.5:
+                    L.append("-> %s ->" % r.choice(self.tunnels))
+            if self.threads and self.p("threads") and r.random() < 0.6:
                 L.append("<- %s" % r.choice(self.threads))
+                if r.random() < 0.4:
+                    L.append("<- %s" % r.choice(self.threads))
+                if r.random() < 0.5:
+                    L.append(self.text_line(temps))
             nblocks = r.randint(0, 2) if self.p("choices") or ki == 0 else 0
             for _ in range(nblocks):
                 L += self.choice_block(1, w["depth"], temps, k, ki, targets + (back if r.random() < 0.4 else []))
@@ -436,10 +466,21 @@ class Gen:
             L.append("->->")
         for i, t in enumerate(self.threads):
             L.append("== %s ==" % t)
-            L.append(self.text_line(()))
+            for _ in range(r.randint(1, 3)):
+                L.append(self.text_line(()))
+            if self.tunnels and r.random() < 0.5:
+                L.append("-> %s ->" % r.choice(self.tunnels))
+                L.append(self.text_line(()))
             L.append("* [%s]" % self.word())
             L.append("  " + self.text_line(()))
             L.append("  -> %s" % names[-1])
+            if r.random() < 0.5:
+                L.append("+ [%s]" % self.word())
+                L.append("  " + self.text_line(()))
+                L.append("  -> %s" % names[-1])
+            if r.random() < 0.5:
+                for _ in range(r.randint(1, 2)):
+                    L.append(self.text_line(()))
             L.append("-> DONE")
         # flows: extra disjoint entry knots using their own variables
         for fi in range(w["flows"]):
